@@ -411,3 +411,77 @@ func PrintKnown(key string) {
 	stats.Known = append(stats.Known, key)
 	fmt.Printf("KNOWN-FINDING: property=%s %s\n", Property, what)
 }
+
+// --- replay / corpus plumbing shared by all packages -----------------------
+
+// IsHarnessErr reports errors that are harness trouble, not verdicts.
+func IsHarnessErr(err error) bool {
+	return err != nil && strings.HasPrefix(err.Error(), "HARNESS")
+}
+
+// Check is the common tail of a property function: harness errors fail the
+// test without a replay file (exit 2 in the driver), property violations
+// write the replay file and fail.
+func Check(t Failer, subName string, c interface{}, err error) {
+	if err == nil {
+		return
+	}
+	if IsHarnessErr(err) {
+		t.Fatalf("%v", err)
+	}
+	Fail(t, subName, c, "%v", err)
+}
+
+// RunReplay implements TestReplay: runs the file named by VERIF_REPLAY.
+func RunReplay(t *testing.T, fn func(rf *ReplayFile) error) {
+	p := ReplayPath()
+	if p == "" {
+		t.Skip("no replay requested")
+	}
+	rf, err := LoadReplay(p)
+	if err != nil {
+		t.Fatalf("HARNESS: %v", err)
+	}
+	if err := fn(rf); err != nil {
+		t.Fatalf("%s/%s: %v", Property, rf.Sub, err)
+	}
+}
+
+// RunCorpus implements TestCorpus: replays every committed regression case
+// in $VERIF_CORPUS; a failing one is reported as a violation whose replay
+// file is a copy of the corpus file.
+func RunCorpus(t *testing.T, fn func(rf *ReplayFile) error) {
+	if ReplayPath() != "" {
+		t.Skip("replay mode")
+	}
+	files, _ := filepath.Glob(filepath.Join(os.Getenv("VERIF_CORPUS"), "*.json"))
+	sort.Strings(files)
+	for _, f := range files {
+		rf, err := LoadReplay(f)
+		if err != nil {
+			t.Fatalf("HARNESS: corpus file %s: %v", f, err)
+		}
+		err = fn(rf)
+		Class("corpus", "replayed")
+		if err == nil {
+			continue
+		}
+		if IsHarnessErr(err) {
+			t.Fatalf("corpus %s: %v", f, err)
+		}
+		b, _ := os.ReadFile(f)
+		dir := filepath.Join(outDir, "replays")
+		os.MkdirAll(dir, 0o755)
+		dst := filepath.Join(dir, "corpus-"+filepath.Base(f))
+		os.WriteFile(dst, b, 0o644)
+		t.Errorf("%s corpus case %s fails: %v\nreplay: %s", Property, filepath.Base(f), err, dst)
+	}
+}
+
+// Decode unmarshals a replay case.
+func Decode(rf *ReplayFile, v interface{}) error {
+	if err := json.Unmarshal(rf.Case, v); err != nil {
+		return fmt.Errorf("HARNESS: bad replay case: %v", err)
+	}
+	return nil
+}
